@@ -135,6 +135,7 @@ Definition fallback_nc (s : script) : final :=
   | Succ t => F (ORet WDirect) (Some t) false false false
   | Never => F OHang None false false false
   | Fail t =>
+      if negb DIRECT_FAILURES_FALL_BACK then F ORaise (Some t) false false false else
       match indirect s t with
       | Succ t' => F (ORet WIndirect) (Some t') false false false
       | Fail t' => F ORaise (Some t') false (ind_fail_residue s) false
